@@ -1,6 +1,7 @@
 package lua
 
 import (
+	"math"
 	"reflect"
 	"unsafe"
 )
@@ -56,7 +57,8 @@ func newAllocator(size int) *allocator {
 // as a whole can be gc-ed.
 func (al *allocator) LNumber2I(v LNumber) LValue {
 	// first check for shared preloaded numbers
-	if v >= 0 && v < preloadLimit && float64(v) == float64(int64(v)) {
+	if v >= 0 && v < preloadLimit && float64(v) == float64(int64(v)) && !math.Signbit(float64(v)) {
+		// (the shared 0 is +0: -0 is a different number, 1/-0 is -inf)
 		return preloads[int(v)]
 	}
 
